@@ -7,6 +7,7 @@ HARNESSES = [
     ("make", ["make.cxx"], "plain"),
     ("visit", ["visit.cxx"], "plain"),
     ("seqs", ["seqs.cxx"], "plain"),
+    ("printer", ["printer.cxx"], "plain"),
     ("seqs", ["seqs.cxx"], "asan"),
     ("scopes", ["scopes.cxx"], "plain"),
     ("regions", ["regions.cxx"], "plain"),
